@@ -34,6 +34,7 @@ type Engine struct {
 	contractSrc map[string]string
 	typeIDs     map[string]int
 	typeByID    map[int]types.Type
+	objKind     map[int]string // "arr" / "map" for ids of array and map objects
 	strIDs      map[string]int
 	funcIDs     map[*ssa.Function]int
 	funcByShort map[string]*ssa.Function
@@ -59,7 +60,7 @@ type Engine struct {
 var repoPkgPaths = []string{"gorm.io/gorm", "gorm.io/gorm/clause", "gorm.io/gorm/callbacks", "gorm.io/gorm/schema", "gorm.io/gorm/utils", "gorm.io/gorm/migrator"}
 
 func newEngine(repo, verif string, overlay map[string][]byte) (*Engine, error) {
-	e := &Engine{repo: repo, verif: verif, typeIDs: map[string]int{}, typeByID: map[int]types.Type{}, strIDs: map[string]int{}, funcIDs: map[*ssa.Function]int{}, funcByShort: map[string]*ssa.Function{}, globals: map[*ssa.Global]int{}, ifaces: map[string]types.Type{}, escCache: map[*ssa.Alloc]bool{}, loopCache: map[*ssa.Function]map[*ssa.BasicBlock]int{}, loopTexts: map[*ssa.Function][]string{}, nameCache: map[*ssa.Function]map[string]nameRef{}, pureCache: map[*ssa.Function]bool{}, syntax: map[*ssa.Function]ast.Node{}, spkgs: map[string]*ssa.Package{}}
+	e := &Engine{repo: repo, verif: verif, typeIDs: map[string]int{}, typeByID: map[int]types.Type{}, objKind: map[int]string{}, strIDs: map[string]int{}, funcIDs: map[*ssa.Function]int{}, funcByShort: map[string]*ssa.Function{}, globals: map[*ssa.Global]int{}, ifaces: map[string]types.Type{}, escCache: map[*ssa.Alloc]bool{}, loopCache: map[*ssa.Function]map[*ssa.BasicBlock]int{}, loopTexts: map[*ssa.Function][]string{}, nameCache: map[*ssa.Function]map[string]nameRef{}, pureCache: map[*ssa.Function]bool{}, syntax: map[*ssa.Function]ast.Node{}, spkgs: map[string]*ssa.Package{}}
 	cs, used, err := loadContracts(repo, verif)
 	if err != nil {
 		return nil, fmt.Errorf("contracts: %v", err)
@@ -272,6 +273,32 @@ func (e *Engine) tid(t types.Type) int {
 	id := len(e.typeIDs) + 1
 	e.typeIDs[k] = id
 	e.typeByID[id] = t
+	return id
+}
+
+// arrTid / mapTid: ids of the object kinds "backing array of element type T" and "map object",
+// kept apart from the ids of variables (cells) of slice or map type.
+func (e *Engine) arrTid(elem types.Type) int {
+	k := "arr:" + types.TypeString(elem, nil)
+	if id, ok := e.typeIDs[k]; ok {
+		return id
+	}
+	id := len(e.typeIDs) + 1
+	e.typeIDs[k] = id
+	e.typeByID[id] = types.NewSlice(elem)
+	e.objKind[id] = "arr"
+	return id
+}
+
+func (e *Engine) mapTid(mt types.Type) int {
+	k := "map:" + types.TypeString(mt.Underlying(), nil)
+	if id, ok := e.typeIDs[k]; ok {
+		return id
+	}
+	id := len(e.typeIDs) + 1
+	e.typeIDs[k] = id
+	e.typeByID[id] = mt.Underlying()
+	e.objKind[id] = "map"
 	return id
 }
 
@@ -801,6 +828,8 @@ func (e *Engine) instrShape(ins ssa.Instruction) []string {
 			out = append(out, "call "+e.shortName(callee))
 		} else if p, ok := c.Value.(*ssa.Parameter); ok {
 			out = append(out, "callparam "+p.Name())
+		} else if _, isB := c.Value.(*ssa.Builtin); !isB {
+			out = append(out, "calldyn "+dynNameOf(c.Value))
 		}
 	case *ssa.Store:
 		if fa, ok := i.Addr.(*ssa.FieldAddr); ok {
@@ -1014,4 +1043,39 @@ func (e *Engine) resolveImmutables() {
 			}
 		}
 	}
+}
+
+// dynNameOf names a function value by where it was loaded from ("Config.NowFunc", "local:f").
+func dynNameOf(v ssa.Value) string {
+	if u, ok := v.(*ssa.UnOp); ok {
+		return storeWhatOf(u.X)
+	}
+	if l, ok := v.(*ssa.Lookup); ok {
+		return "lookup:" + dynNameOf(l.X)
+	}
+	if ph, ok := v.(*ssa.Phi); ok && ph.Comment != "" {
+		return "local:" + ph.Comment
+	}
+	return v.Name()
+}
+
+func storeWhatOf(addr ssa.Value) string {
+	switch a := addr.(type) {
+	case *ssa.FieldAddr:
+		st := a.X.Type().Underlying().(*types.Pointer).Elem()
+		name := st.String()
+		if n, ok := st.(*types.Named); ok {
+			name = n.Obj().Name()
+		}
+		return name + "." + st.Underlying().(*types.Struct).Field(a.Field).Name()
+	case *ssa.IndexAddr:
+		return "elem"
+	case *ssa.Alloc:
+		return "local:" + a.Comment
+	case *ssa.Global:
+		return "global:" + a.Name()
+	case *ssa.FreeVar:
+		return "captured:" + a.Name()
+	}
+	return "ptr"
 }
